@@ -58,7 +58,11 @@ func ifaceKey(m *types.Func) string {
 	sig := m.Type().(*types.Signature)
 	if sig.Recv() != nil {
 		if n, ok := sig.Recv().Type().(*types.Named); ok {
-			return n.Obj().Pkg().Name() + "." + n.Obj().Name() + "." + m.Name()
+			pn := "builtin"
+			if n.Obj().Pkg() != nil {
+				pn = n.Obj().Pkg().Name()
+			}
+			return pn + "." + n.Obj().Name() + "." + m.Name()
 		}
 	}
 	return "?." + m.Name()
@@ -352,7 +356,7 @@ func (ex *Exec) applyContract(fr *Frame, st *State, fc *FuncContract, names []st
 		}
 		rv = a
 	}
-	for _, cl := range fc.Ensures {
+	for _, cl := range append(append([]*Clause{}, fc.GhostDefs...), fc.Ensures...) {
 		env := mkEnv(post, pre)
 		bindResults(env, rvals, rnames)
 		ex.cx.assume(implies(post.reach, env.evalBool(cl.Expr)))
